@@ -180,6 +180,8 @@ class Check(object):
         self.canaries_sat += sat
         for v in verdicts:
             can = [o for o in v.obligations if o.kind == 'canary']
+            if v.undecided:
+                continue      # outside the subset: UNDECIDED, not an error
             if not can:
                 self.errors.append('%s: no path reaches an exit (vacuous '
                                    'contract?)' % v.name)
